@@ -489,6 +489,7 @@ class Prover:
         self.seed = seed
         self.timeout = int(os.environ.get("VERIF_QUERY_TIMEOUT_MS", TIMEOUTS.get(tier, 20000)))
         self.records = []
+        self.witness_tries = {}
         self.fails = 0
         self.unknowns = 0
         self.paths = 0
@@ -729,6 +730,21 @@ class Prover:
                 finding = self._classify(oname, pc, out, key)
                 self.rec(oname, "sat", time=round(time.time() - t0, 3), model=jsonable(env0), replay=rp0, refinements=0, finding=finding, via="abstraction-model")
                 return
+            # the abstraction could not prove the claim and its model is not a real counterexample:
+            # before the expensive non-linear query, look for a witness among a few concrete inputs
+            # (a reproducing replay on the real code is a violation however the input was found;
+            #  "holds" is still only ever concluded from an unsat answer)
+            if self.witness_tries.get(oname.rsplit("/", 1)[0], 0) < 6:
+                for k in range(3):
+                    self.witness_tries[oname.rsplit("/", 1)[0]] = self.witness_tries.get(oname.rsplit("/", 1)[0], 0) + 1
+                    try:
+                        rpk = self._replay(sc, params, {}, key, None, seed=101 + k)
+                    except Exception:
+                        rpk = None
+                    if rpk and rpk.get("reproduced"):
+                        finding = self._classify(oname, pc, out, key)
+                        self.rec(oname, "sat", time=round(time.time() - t0, 3), model=rpk.get("inputs"), replay=rpk, refinements=0, finding=finding, via="concrete-witness-after-abstract-sat")
+                        return
         if self.unknowns + self.fails > 3:
             # this job is already inconclusive/violating: do not spend the full budget on every query
             self.timeout = min(self.timeout, 3000)
@@ -851,9 +867,9 @@ class Prover:
             self.rec(oname + "/cross-check", "error", detail="cvc5 answers sat where z3 answered unsat on the same abstracted query")
 
     # ---- real-code replay -----------------------------------------------------------
-    def _replay(self, sc, params, env, key, note):
+    def _replay(self, sc, params, env, key, note, seed=0):
         """run the scenario on the real package with the model's inputs"""
-        B = RealB(env)
+        B = RealB(env, seed=seed)
         res = dict(reproduced=False)
         try:
             out = sc(B, **params)
